@@ -221,6 +221,7 @@ def hist_runner(prop, tier, seed, scratch, spec):
                     "rebalance_steps_replayed": stats.get("layerc_rebalance_steps_replayed", 0),
                     "overlay_trees_predicted_from_committed_tree_plus_leaf_edits": stats.get("overlay_trees_predicted", 0),
                     "tree_pages_whose_bytes_equal_the_model_writer_output": stats.get("pages_reencoded", 0),
+                    "commits_whose_freed_pages_and_new_page_count_were_predicted": stats.get("commits_whose_freed_pages_were_predicted", 0),
                     "invariants_evaluated_on_real_trees": "Sep (wfsb), tightness (tightB / tightMB after the rebalance replay), uniform depth, no empty branch"},
     }
     return {"violations": [(p_, d, "") for p_, d in reports], "coverage": cov, "explored": len(results), "known": []}
@@ -257,6 +258,12 @@ def run(prop, tier, seed, replay, t0):
         obligations_broken.append("theorem %s depends on axioms %s" % (t["name"], t["axioms"]))
     for hpos in forb:
         obligations_broken.append("forbidden construct " + hpos)
+    rechecked = None
+    if tier == "thorough" and b.lean_ok and not replay:
+        why = vlib.recheck(prop)
+        rechecked = why is None
+        if why:
+            obligations_broken.append("independent re-check of Jamm.Props.%s failed: %s" % (prop, why))
 
     scratch = vlib.Scratch(prop)
     try:
@@ -284,6 +291,7 @@ def run(prop, tier, seed, replay, t0):
             "trusted_base": TRUSTED_BASE + spec.get("trusted", []),
             "theorems": [{"name": t["name"], "axioms": t["axioms"]} for t in thms],
             "broken_obligations": obligations_broken,
+            "leanchecker_replay_of_the_property_module": {True: "accepted", False: "REJECTED", None: "not run (thorough tier only)"}[rechecked],
             "known_findings_seen": res.get("known", []),
             "explanation": "Lean theorems (listed) are re-checked by lake build and audited for axioms; the correspondence programme runs the real code built from /repo's working tree against the Lean specification / model on the cases described under rule/samples",
         }
